@@ -8,6 +8,9 @@ func dispatchMore(cmd string, args []string) bool {
 	case "digobs":
 		cmdDigObs(args)
 		return true
+	case "termcamp":
+		cmdTermCamp(args)
+		return true
 	case "campaign":
 		cmdCampaign(args)
 		return true
